@@ -182,6 +182,19 @@ void profile_storm(RunCtx& ctx)
             if (rng.chance(0.1)) {
                 c.bytes = deep_expr(1 << rng.range(4, 13), rng.below(5));
                 what = "deep-expression";
+            } else if (rng.chance(0.06)) {
+                // lexical limits: identifiers around MAXLEN (4001), integers around 2^31, a long string literal
+                static const int lens[] = {3998, 3999, 4000, 4001, 4002, 8191, 70000};
+                std::string id(lens[rng.below(7)], 'z');
+                static const char* nums[] = {"2147483647", "2147483648", "-2147483648", "4294967296", "99999999999999999999", "0000000000000000000000001", "1e400", "1.7976931348623157e308"};
+                switch (rng.below(5)) {
+                case 0: c.bytes = "int " + id + " = 1; int zq = " + id + " + 1;"; c.part = UTAP::S_DECLARATION; break;
+                case 1: c.bytes = id + " > 1 && gi0 < " + nums[rng.below(8)]; c.part = UTAP::S_GUARD; break;
+                case 2: c.bytes = std::string{"const int zlim = "} + nums[rng.below(8)] + "; int[0," + nums[rng.below(8)] + "] zr; double zd = " + nums[rng.below(8)] + ";"; c.part = UTAP::S_DECLARATION; break;
+                case 3: c.bytes = "import \"" + id + "\" { int zf(int a); };"; c.part = UTAP::S_DECLARATION; break;
+                default: c.bytes = "E<> " + id + "." + id + " && gi0 == " + nums[rng.below(8)]; c.part = UTAP::S_PROPERTY; break;
+                }
+                what = "lexical-limit";
             } else if (rng.chance(0.25)) {
                 // corners of the grammar the model generator does not visit (statements, gantt, progress, update hooks,
                 // scalars, records, external functions, dynamic templates, built-in functions); damaged like everything else
